@@ -125,11 +125,18 @@ class Scenario(object):
         return "\n".join(["scenario %s %s" % (self.family, self.name)] + self.header + self.ops + ["end"]) + "\n"
 
     def to_json(self):
-        return {"family": self.family, "name": self.name, "header": self.header, "ops": self.ops}
+        import json
+        meta = {k: v for k, v in (self.meta or {}).items() if k != "spec"}      # the spec is re-parsed from the header
+        try:
+            meta = json.loads(json.dumps(meta))
+        except (TypeError, ValueError):
+            meta = {}
+        return {"family": self.family, "name": self.name, "header": self.header, "ops": self.ops, "meta": meta}
 
     @staticmethod
     def from_json(d):
-        return Scenario(d["family"], d["name"], d["header"], d["ops"])
+        meta = d.get("meta")
+        return Scenario(d["family"], d["name"], d["header"], d["ops"], dict(meta) if isinstance(meta, dict) else None)
 
 
 def run_model(scenarios, timeout=600):
